@@ -48,7 +48,8 @@ def compute_rbf_kernel(x_i: np.ndarray, y_j: np.ndarray, sigma: float) -> np.nda
     Returns:
         np.ndarray: The gaussian kernel matrix.
     """
-    exponent = np.abs(x_i[:, None] - y_j[None, :]) ** 2
+    # Square in floating point: squared differences of wide integer codes overflow int64.
+    exponent = np.abs((x_i[:, None] - y_j[None, :]).astype(float)) ** 2
     try:
         gamma = 1.0 / (2 * sigma)
     except ZeroDivisionError as error:
@@ -75,7 +76,8 @@ def compute_multi_rbf_kernel(
     Returns:
         np.ndarray: The gaussian kernel matrix.
     """
-    exponent = np.abs(x_i[:, None] - y_j[None, :]) ** 2
+    # Square in floating point: squared differences of wide integer codes overflow int64.
+    exponent = np.abs((x_i[:, None] - y_j[None, :]).astype(float)) ** 2
     kernel_matrix = np.zeros(exponent.shape)
     for sigma in sigmas:
         try:
@@ -122,9 +124,9 @@ def compute_mmd(
             measured_distribution.distribution_dict.get(bitstring, 0)
         )
 
-    basis = np.asarray(
-        [int("".join(map(str, item)), 2) for item in all_keys]
-    )  # Digit Tuple to int
+    codes = [int("".join(map(str, item)), 2) for item in all_keys]  # Digit Tuple to int
+    # Codes of wide registers are kept as Python integers, so that they subtract exactly.
+    basis = np.asarray(codes, dtype=np.int64 if max(codes) < 2**62 else object)
     if not hasattr(sigma, "__len__"):
         kernel_matrix = compute_rbf_kernel(basis, basis, sigma)
     else:
